@@ -15,7 +15,8 @@ Fixpoint func_dnames (z : list zframe) : list Z :=
 (* a frame below the top only gains var-like names V *)
 Definition grow_one (V : list Z) (g g' : zframe) : Prop :=
   incl (dn g) (dn g') /\ (forall y, In y (dn g') -> In y (dn g) \/ In y V) /\
-  (forall y, In (UPend y) (fund (fst g')) -> In (UPend y) (fund (fst g))).
+  (forall y, In (UPend y) (fund (fst g')) -> In (UPend y) (fund (fst g))) /\
+  (forall y, In (UArg y) (fund (fst g')) -> In (UArg y) (fund (fst g))).
 
 (* var-like names stop at the first function frame *)
 Definition below (V : list Z) (g : zframe) : list Z := if fisfunc (fst g) then [] else V.
@@ -39,17 +40,18 @@ Definition grow (L V : list Z) (z z' : list zframe) : Prop :=
   end.
 
 Lemma grow_one_refl V g : grow_one V g g.
-Proof. split; [apply incl_refl|]. split; [intros y H; left; exact H|intros y H; exact H]. Qed.
+Proof. split; [apply incl_refl|]. split; [intros y H; left; exact H|split; intros y H; exact H]. Qed.
 
 Lemma grow_rest_refl V r : grow_rest V r r.
 Proof. revert V. induction r as [|g t IH]; intros V; cbn; [exact I|]. split; [apply grow_one_refl|apply IH]. Qed.
 
 Lemma grow_one_trans V1 V2 g1 g2 g3 : grow_one V1 g1 g2 -> grow_one V2 g2 g3 -> grow_one (V1 ++ V2) g1 g3.
 Proof.
-  intros (A1 & B1 & C1) (A2 & B2 & C2). split; [eapply incl_tran; eassumption|]. split.
+  intros (A1 & B1 & C1 & D1) (A2 & B2 & C2 & D2). split; [eapply incl_tran; eassumption|]. split; [|split].
   - intros y Hy. destruct (B2 y Hy) as [H|H]; [|right; apply in_app_iff; right; exact H].
     destruct (B1 y H) as [H'|H']; [left; exact H'|right; apply in_app_iff; left; exact H'].
   - intros y Hy. apply C1. apply C2. exact Hy.
+  - intros y Hy. apply D1. apply D2. exact Hy.
 Qed.
 
 Lemma grow_one_weaken V V' g g' : incl V V' -> grow_one V g g' -> grow_one V' g g'.
@@ -146,9 +148,11 @@ Lemma final_push a z n names :
   AInv a z -> (anext a <= n)%nat ->
   map (final ((n, false, names) :: env_of z)) (alog a) = map (final (env_of z)) (alog a).
 Proof.
-  intros A Hn. apply map_ext_in. intros [s y|s y] Hl; [reflexivity|].
-  destruct (A_log _ _ A s y Hl) as (fp & Hfp & Hs & _). pose proof (A_next _ _ A fp Hfp) as Hlt.
-  cbn [final]. rewrite drop_to_skip by lia. reflexivity.
+  intros A Hn. apply map_ext_in. intros [s y|s y|s y] Hl; [reflexivity| |].
+  - destruct (A_log _ _ A s y Hl) as (fp & Hfp & Hs & _). pose proof (A_next _ _ A fp Hfp) as Hlt.
+    cbn [final]. rewrite drop_to_skip by lia. reflexivity.
+  - destruct (A_logarg _ _ A s y Hl) as (fp & Hfp & Hs & _). pose proof (A_next _ _ A fp Hfp) as Hlt.
+    cbn [final]. rewrite drop_to_skip by lia. reflexivity.
 Qed.
 
 (* ---- booleans of spec_ok ----------------------------------------------------------------------------------- *)
